@@ -25,8 +25,8 @@ RULE = ('valid members (reference-built and built by the primitive constructors)
 ASSUMPTIONS = ['UnitQuaternion is only given 3x3 arrays: a 4x4 array is documented as four quaternions (N x 4) and is normalised, not rejected',
                'distance to the group = Frobenius distance to the nearest proper rotation (SVD) combined with the last-row '
                'error; judged only when > 1e-6 (must reject) or when the value is an unperturbed primitive (must accept)']
-MIN_EVALS = {'ctor.reject': {'quick': 4000, 'thorough': 60000}, 'ctor.accept': {'quick': 1500, 'thorough': 20000},
-             'predicate': {'quick': 6000, 'thorough': 100000}, 'scalar.predicate': {'quick': 3000, 'thorough': 40000},
+MIN_EVALS = {'ctor.reject': {'quick': 2000, 'thorough': 30000}, 'ctor.accept': {'quick': 700, 'thorough': 10000},
+             'predicate': {'quick': 6000, 'thorough': 100000}, 'scalar.predicate': {'quick': 1700, 'thorough': 20000},
              'invariant': {'quick': 800, 'thorough': 12000}}
 _ctx = None
 SHAPES = {'SO2': (2, 2), 'SE2': (3, 3), 'SO3': (3, 3), 'SE3': (4, 4), 'Quaternion': (4,), 'UnitQuaternion': (4,),
